@@ -46,9 +46,13 @@ class RecFuture(asyncio.Future):
     """A Future that logs every resolution attempt (used for futures created by
     rsocket.helpers.create_future, i.e. the ones the library hands to applications)."""
 
+    def __init__(self, *, loop=None):
+        super().__init__(loop=loop)
+        self.rv_log = []
+        self.rv_tag = None
+
     def _rv_log(self, what, arg=None):
-        log = self.__dict__.setdefault('rv_log', [])
-        log.append((what, self.done(), arg))
+        self.rv_log.append((what, self.done(), arg))
 
     def set_result(self, result):
         self._rv_log('set_result')
